@@ -377,6 +377,8 @@ func (pConn *PFCPConn) handleSessionModificationRequest(msg message.Message) (me
 			return sendError(err)
 		}
 
+		releaseAllocatedFTEIDs(upf.fteidGenerator, []pdr{*p})
+
 		delPDRs = append(delPDRs, *p)
 	}
 
@@ -472,6 +474,8 @@ func (pConn *PFCPConn) handleSessionDeletionRequest(msg message.Message) (messag
 	if err := releaseAllocatedIPs(upf.ippool, &session); err != nil {
 		return sendError(ErrOperationFailedWithReason("session IP dealloc", err.Error()))
 	}
+
+	releaseAllocatedFTEIDs(upf.fteidGenerator, session.pdrs)
 
 	/* delete sessionRecord */
 	pConn.RemoveSession(session)
@@ -575,6 +579,7 @@ func (pConn *PFCPConn) handleSessionReportResponse(msg message.Message) error {
 
 		logger.PfcpLog.Warnln("context not found, deleting session locally")
 
+		releaseAllocatedFTEIDs(upf.fteidGenerator, sessItem.pdrs)
 		pConn.RemoveSession(sessItem)
 
 		cause := upf.SendMsgToUPF(
